@@ -69,6 +69,13 @@ fn main() {
         println!("// features: {:?}\n{}", f, t);
         return;
     }
+    if args.len() >= 3 && args[1] == "dumpnames" {
+        let list = if args[2] == "msl" { oracle::names::msl_reserved() } else { oracle::names::hlsl_reserved() };
+        for n in list {
+            println!("{}", n);
+        }
+        return;
+    }
     if args.len() >= 4 && args[1] == "dumptree" {
         par::install_panic_hook();
         let text = std::fs::read_to_string(&args[3]).expect("read");
